@@ -1,9 +1,10 @@
 #!/bin/bash
+V=${VERIF:-/verif}
 # tools/seed_check.sh <seed-name> [ids...] : run quick checks against an exported copy of /repo HEAD with the seed's patch applied
 n=$1; shift
 d=$(mktemp -d /tmp/seedchk.XXXXXX)
 git -C /repo archive HEAD | tar -x -C $d
-(cd $d && git apply --whitespace=nowarn /verif/seeded/$n/patch.diff) || { echo "apply failed"; rm -rf $d; exit 3; }
-ids=${@:-$(/venv/bin/python -c "import json;print(json.load(open('/verif/seeded/$n/meta.json'))['breaks_property'])")}
-for p in $ids; do timeout 900 /verif/check $p --no-evidence --out $d/_out --repo $d > $d/_$p.txt 2>&1; rc=$?; echo "$n $p exit=$rc $(grep -E '^  \[' $d/_$p.txt | head -2 | cut -c1-260 | tr '\n' '|')"; done
+(cd $d && git apply --whitespace=nowarn $V/seeded/$n/patch.diff) || { echo "apply failed"; rm -rf $d; exit 3; }
+ids=${@:-$(/venv/bin/python -c "import json;print(json.load(open('$V/seeded/$n/meta.json'))['breaks_property'])")}
+for p in $ids; do timeout 900 $V/check $p --no-evidence --out $d/_out --repo $d > $d/_$p.txt 2>&1; rc=$?; echo "$n $p exit=$rc $(grep -E '^  \[' $d/_$p.txt | head -2 | cut -c1-260 | tr '\n' '|')"; done
 rm -rf $d
